@@ -144,6 +144,66 @@ def run_shard(args):
                 out["violations"].append({"kind": "order-dependent-result", "detail": {"P": P, "order": perm, "diff": diff[:2000]}, "witness": wit, "finding": None})
         if len(out["samples"]) < 2:
             out["samples"].append({"pending": P, "orders": len(perms), "before": src[:900], "combined_result": combined[:900]})
+    # ---- real review sessions: answer `y` to exactly one pending category per session, in different
+    # orders, and compare with one session approving all of them (the plugin applies categories
+    # cumulatively on virtual copies: a path the in-process driver does not have)
+    from .. import session
+
+    nreal = {"quick": 1 if args.shard < 3 else 0, "thorough": 3}[tier]
+    for c in range(nreal):
+        rng = random.Random(f"{args.seed}/{PROP}/review/{args.shard}/{c}")
+        sites = [c05.make_site(rng, i, 2) for i in range(rng.randint(3, 5))]
+        if rng.random() < 0.5:
+            sites[0] = kw_site(rng, 0)
+        for s in sites:
+            if s["place"] == "module":
+                s["place"] = "loop"
+        src, order = program.build(sites, style="rec", tests=1, header="from inline_snapshot import snapshot, Is, HasRepr, external, outsource\nfrom vp import *\n")
+        res0 = inproc.run({"test_a.py": src}, ())
+        if res0.exec_exc or res0.crashed():
+            continue
+        P = [x for x in ("create", "fix", "trim", "update") if x in res0.flags_reported]
+        if len(P) < 2:
+            continue
+
+        def review_chain(order_of_cats):
+            proj = session.Project({"test_a.py": src})
+            try:
+                for cat in order_of_cats:
+                    # prompts appear only for categories that are pending *now*, in the order create, fix, trim, update
+                    cur = inproc.run({"test_a.py": (proj.dir / "test_a.py").read_text()}, ())
+                    pend = [x for x in ("create", "fix", "trim", "update") if x in cur.flags_reported]
+                    answers = "".join("y\n" if x in (cat if isinstance(cat, (list, tuple)) else [cat]) else "n\n" for x in pend) + "n\nn\nn\nn\n"
+                    r = session.run_session(proj, ["--inline-snapshot=review"], env={"FORCE_COLOR": "true"}, stdin=answers.encode())
+                    if any(a["kind"] == "sessionfinish_exception" for a in r.audit):
+                        return ("exc", [a for a in r.audit if a["kind"] == "sessionfinish_exception"])
+                return (proj.dir / "test_a.py").read_text()
+            finally:
+                proj.close()
+
+        combined = review_chain([P])
+        C["review_programs"] = C.get("review_programs", 0) + 1
+        perms = list(itertools.permutations(P))
+        rng.shuffle(perms)
+        for perm in perms[: (2 if tier == "quick" else 6)]:
+            final = review_chain(list(perm))
+            C["review_chains"] = C.get("review_chains", 0) + 1
+            out["evaluations"] += 1
+            out["signatures"].add(f"review/{'+'.join(P)}/{'>'.join(perm)}")
+            wit = {"files": {"test_a.py": src}, "flags": P, "order": list(perm), "mode": "review sessions"}
+            if isinstance(final, tuple) or isinstance(combined, tuple):
+                out["violations"].append({"kind": "review-session-raised", "detail": {"P": P, "order": perm, "events": final if isinstance(final, tuple) else combined}, "witness": wit, "finding": None})
+                continue
+            try:
+                same = ast.dump(ast.parse(final)) == ast.dump(ast.parse(combined))
+            except SyntaxError as e:
+                out["violations"].append({"kind": "final-program-unparsable", "detail": {"P": P, "order": perm, "error": str(e)}, "witness": wit, "finding": None})
+                continue
+            if not same:
+                import difflib
+
+                diff = "\n".join(difflib.unified_diff(combined.splitlines(), final.splitlines(), "all-at-once", ">".join(perm), lineterm="", n=0))
+                out["violations"].append({"kind": "order-dependent-result(review sessions)", "detail": {"P": P, "order": perm, "diff": diff[:2000]}, "witness": wit, "finding": None})
     out["signatures"] = sorted(out["signatures"])
     return out
 
